@@ -105,6 +105,7 @@ func c14World(rc *kernel.RunCtx) {
 	maxSteps := rc.Param("max_steps", 1500)
 	k := kernel.New(t, kernel.M1, 1<<30)
 	kernel.Active = k
+	takeLateUse() // nothing from an earlier run
 	defer lockAware(k)()
 	kn := drawKnobs(t, rc.Run)
 	kn.OwnBuf = false
@@ -240,7 +241,7 @@ func c14World(rc *kernel.RunCtx) {
 				case "shared":
 					w := &core{park: park, limit: 4 << 20}
 					r.err = shared[r.Spec].Render(context.Background(), w.as(kn.WKind))
-					r.got = w.got
+					r.got, w.done = w.got, true
 				case "http":
 					rec := newRecorder()
 					templ.Handler(shared[r.Spec]).ServeHTTP(parkRecorder{rec, park}, httptest.NewRequest(http.MethodGet, "/", nil))
@@ -248,7 +249,7 @@ func c14World(rc *kernel.RunCtx) {
 				case "bare":
 					w := &core{park: park, limit: 4 << 20}
 					r.err = bare.Render(context.Background(), w.as(kn.WKind))
-					r.got = w.got
+					r.got, w.done = w.got, true
 				case "httpfail":
 					// a request whose component fails after writing part of the document
 					rec := newRecorder()
@@ -347,6 +348,9 @@ func c14World(rc *kernel.RunCtx) {
 	}
 	if dev {
 		k.Count("probe_dev_mode_run", 1)
+	}
+	if lu := takeLateUse(); lu != "" {
+		rc.Fail("C14/writer-used-after-its-render-returned", "%s", lu)
 	}
 	rc.Finish(k)
 	rc.Res.Nontriv = k.Switches > 0 || burst
